@@ -40,9 +40,7 @@ OBJECT_SETS = [dict(G.OBJECTS), {"o1": "t1", "o2": "t1", "o3": "t3", "u1": "t2",
                # takes the type that follows it)
                {"x1": "object", "o1": "t1", "o2": "t1", "o3": "t3", "u1": "t2"},
                {"o1": "t1", "o2": "t1", "x1": "object", "o3": "t3", "x2": "object", "u1": "t2"}]
-# a predicate whose two parameters have different types (t3 is a subtype of t1): for checks of each argument position
-EXTRA_PREDICATES = [["m", "?a", "-", "t3", "?b", "-", "t1"]]
-DOMAIN_TEXT = G.domain_text([("act", [], ["and"], ["and"])], const=True, extra_predicates=EXTRA_PREDICATES)
+DOMAIN_TEXT = G.domain_text([("act", [], ["and"], ["and"])], const=True)
 _N = [0]
 
 
